@@ -180,7 +180,7 @@ def _calls(ctx, group, layout):
         nn = np.array([3, 4])
         cc = _layout(vec(ctx, 'c', 3), layout)
         return [lambda: T.const([2, 3], v), lambda: T.const([2, 2], v, [[0, 1]], [1, 1]), lambda: T.delta([2, 3], [1, 2], v),
-                lambda: T.poly([2, 2], sh, 2, v), lambda: T.ind_to_poi(I2[:, :2], a, b, nn, 'uni'), lambda: T.poi_scale(X, a, b),
+                lambda: T.poly([2, 2], sh, 2, v), lambda: T.ind_to_poi(I2[:, :2], a, b, nn, 'uni'), lambda: T.ind_to_poi(np.array([2, 3]), a, b, nn, 'uni'), lambda: T.poi_scale(X, a, b),
                 lambda: T.poi_scale(X, a, b, 'cheb'), lambda: T.poi_to_ind(X, a, b, nn), lambda: T.ind_tt_to_qtt(np.array([1, 2]), 4),
                 lambda: T.ind_qtt_to_tt(np.array([1, 0, 0, 1]), 2), lambda: T.grid_flat([2, 3]), lambda: T.grid_prep_opts(a, b, nn),
                 lambda: T.cdf_getter(cc), lambda: T.vector_delta(2, 1, v), lambda: T.matrix_delta(2, 1, 2, v)]
@@ -213,7 +213,7 @@ def _calls(ctx, group, layout):
     raise KeyError(group)
 
 
-N_STEPS = {'act': 26, 'core': 6, 'tensors_grid': 15, 'func': 13, 'anova_sample': 4, 'optima': 5}
+N_STEPS = {'act': 26, 'core': 6, 'tensors_grid': 16, 'func': 13, 'anova_sample': 4, 'optima': 5}
 
 
 def h_templates(ctx, group, layout, step):
